@@ -76,6 +76,120 @@ pub fn eval_c07(st: &State) -> Eval {
 }
 
 pub fn eval_c07_with(st: &State, max_n: usize) -> Eval {
+    eval_c07_masks(st, masks_for(st.n(), max_n).into_iter().flatten().collect())
+}
+
+/// Large states under sparse, spatially structured masks (DESIGN section 9): item = (state, committed mask menu).
+pub fn eval_c07_item(item: &(State, Vec<Vec<bool>>)) -> Eval {
+    match guarded(|| eval_c07_masks(&item.0, item.1.clone())) {
+        Ok(e) => e,
+        Err(p) => {
+            let mut e = Eval::default();
+            e.issue(format!("panic:{}", p.msg.chars().take(70).collect::<String>()), item.0.id.clone(), format!("a library call panicked at {}: {}", p.site, p.msg), replay_text("c07", &item.0, &[]));
+            e
+        }
+    }
+}
+
+/// The mask menu of a large state: single cells next to every face of the box, at its centre and in a corner (the last six
+/// generators as well: the isolated ones of the cluster states), compact blobs of 8 and n/16 cells at a face and in a
+/// corner, a rod through the box along x (it touches both x faces), and every 16th cell.
+pub fn c07_sparse_masks(st: &State) -> Vec<Vec<bool>> {
+    let n = st.n();
+    let (a, w) = (st.norm_anchor(), st.norm_width());
+    let d2 = |i: usize, q: DVec3| -> f64 {
+        let g = st.gen_loc(i);
+        (0..st.dim).map(|k| (comp(g, k) - comp(q, k)).powi(2)).sum()
+    };
+    let nearest = |q: DVec3, k: usize| -> Vec<usize> {
+        let mut idx: Vec<usize> = (0..n).collect();
+        idx.sort_by(|&i, &j| d2(i, q).partial_cmp(&d2(j, q)).unwrap().then(i.cmp(&j)));
+        idx.truncate(k);
+        idx
+    };
+    let at = |f: [f64; 3]| a + v3(f[0], f[1], f[2]) * w;
+    let mk = |sel: &[usize]| -> Vec<bool> {
+        let mut m = vec![false; n];
+        for &i in sel {
+            m[i] = true;
+        }
+        m
+    };
+    let mut masks = vec![];
+    let mut points = vec![[0.5, 0.5, 0.5], [0.002, 0.003, 0.001], [0.999, 0.998, 0.997]];
+    for k in 0..st.dim {
+        for side in [0.001, 0.999] {
+            let mut f = [0.45, 0.55, 0.5];
+            f[k] = side;
+            points.push(f);
+        }
+    }
+    for f in &points {
+        masks.push(mk(&nearest(at(*f), 1)));
+    }
+    for i in n.saturating_sub(6)..n {
+        masks.push(mk(&[i]));
+    }
+    masks.push(mk(&nearest(at([0.001, 0.5, 0.5]), 8)));
+    masks.push(mk(&nearest(at([0.999, 0.999, 0.999]), 8)));
+    masks.push(mk(&nearest(at([0.5, 0.999, 0.4]), (n / 16).max(2))));
+    masks.push(mk(&nearest(at([0.5, 0.5, 0.5]), (n / 17).max(2))));
+    let (c, r) = (at([0.5, 0.5, 0.5]), 0.04);
+    let rod: Vec<usize> = (0..n)
+        .filter(|&i| {
+            let g = st.gen_loc(i);
+            (1..st.dim).all(|k| (comp(g, k) - comp(c, k)).abs() < r * comp(w, k))
+        })
+        .collect();
+    if !rod.is_empty() && rod.len() < n {
+        masks.push(mk(&rod));
+    }
+    masks.push((0..n).map(|i| i % 16 == 3).collect());
+    masks.sort();
+    masks.dedup();
+    masks
+}
+
+/// Large states for C07: generator counts beyond any "large input" threshold (4500 / 5000), uniform and with a strong
+/// density contrast, unit boxes and boxes of 10 and 1000 length units away from the origin.
+pub fn c07_large_items(thorough: bool) -> Vec<(State, Vec<Vec<bool>>)> {
+    let mut states: Vec<State> = vec![];
+    let unit = BoxSpec { name: "b0", anchor: v3(0., 0., 0.), width: v3(1., 1., 1.) };
+    let w10 = BoxSpec { name: "w10", anchor: v3(-3., 20., 5.), width: v3(10., 10., 10.) };
+    let w1000 = BoxSpec { name: "w1000", anchor: v3(-300., 200., 50.), width: v3(1000., 1000., 1000.) };
+    for periodic in [false, true] {
+        states.push(State { id: format!("{}|b0|K4500", dim_tag(3, periodic)), dim: 3, periodic, anchor: unit.anchor, width: unit.width, gens: kronecker_points(4500, &unit, 3) });
+        states.push(State { id: format!("{}|b0|K5000", dim_tag(2, periodic)), dim: 2, periodic, anchor: unit.anchor, width: unit.width, gens: kronecker_points(5000, &unit, 2) });
+        states.push(State { id: format!("{}|w10|K2500", dim_tag(3, periodic)), dim: 3, periodic, anchor: w10.anchor, width: w10.width, gens: kronecker_points(2500, &w10, 3) });
+        if thorough {
+            states.push(State { id: format!("{}|w1000|K4500", dim_tag(3, periodic)), dim: 3, periodic, anchor: w1000.anchor, width: w1000.width, gens: kronecker_points(4500, &w1000, 3) });
+            states.push(State { id: format!("{}|w10|K5000", dim_tag(2, periodic)), dim: 2, periodic, anchor: w10.anchor, width: w10.width, gens: kronecker_points(5000, &w10, 2) });
+            states.push(State { id: format!("{}|b0|K5000", dim_tag(1, periodic)), dim: 1, periodic, anchor: unit.anchor, width: unit.width, gens: kronecker_points(5000, &unit, 1) });
+        }
+    }
+    // the cluster states of C01/C02 (dense cluster + six isolated generators whose cells need hundreds of candidates),
+    // also scaled to a box of 1000 length units
+    for s in large_states(thorough).into_iter().filter(|s| s.id.contains("cluster1200")) {
+        let mut big = s.clone();
+        big.id = s.id.replace("|b0|", "|w1000|");
+        big.anchor = w1000.anchor;
+        big.width = w1000.width;
+        big.gens = s.gens.iter().map(|g| w1000.anchor + (*g - s.anchor) / s.width * w1000.width).collect();
+        if s.dim <= 2 {
+            for (g, o) in big.gens.iter_mut().zip(s.gens.iter()) {
+                g.z = o.z;
+            }
+        }
+        states.push(s);
+        states.push(big);
+    }
+    states.into_iter().map(|s| {
+        let m = c07_sparse_masks(&s);
+        (s, m)
+    }).collect()
+}
+
+pub fn eval_c07_masks(st: &State, masks: Vec<Vec<bool>>) -> Eval {
     let mut e = Eval::default();
     let check = "c07";
     let t = tol(st);
@@ -100,9 +214,9 @@ pub fn eval_c07_with(st: &State, max_n: usize) -> Eval {
     let full_vc = full_integ.compute_cell_integrals::<VolumeCentroidIntegral>();
     let full_maps: Vec<Result<BTreeMap<FaceKey, Vec<f64>>, String>> = (0..n).map(|i| cell_face_map(st, &full, i)).collect();
     let atol = |a: f64| t.pos * 8. * t.l.powi((st.dim as i32 - 2).max(0)) + 1e-9 * a.abs();
-    for mask in masks_for(n, max_n).into_iter().flatten() {
+    for mask in masks {
         let ms = mask_str(&mask);
-        let case = format!("{}|mask={}", st.id, ms);
+        let case = if n <= 64 { format!("{}|mask={}", st.id, ms) } else { format!("{}|mask=[{} of {} selected: {:?}{}]", st.id, mask.iter().filter(|&&b| b).count(), n, mask.iter().enumerate().filter(|x| *x.1).map(|x| x.0).take(8).collect::<Vec<_>>(), if mask.iter().filter(|&&b| b).count() > 8 { ", ..." } else { "" }) };
         let extra = [("mask", ms.clone())];
         let rp = || replay_text(check, st, &extra);
         e.transitions += n as u64; // one relation per cell: node vs full build
